@@ -2,10 +2,12 @@
 //
 // Code under proof (extracted on every run): enum LuaType / LuaUnionType and the small payload structs, the dispatch function
 // check_general_type_compact with its head guards (is_like_any, fast_eq_check, escape_type), TypeCheckGuard, the whole
-// check_complex_type_compact (the `Union` source arm), check_union_type_compact_union, check_simple_type_compact,
-// is_sub_type_of / check_sub_type_of_iterative, union_type / union_type_all / can_use_structural_union / union_type_impl /
-// LuaType::from_vec / LuaUnionType::{from_vec, into_vec}.
+// check_complex_type_compact (the `Union` source arm), check_union_type_compact_union, check_simple_type_compact, check_ref_type_compact,
+// check_ref_class, is_sub_type_of / check_sub_type_of_iterative, LuaType::eq, union_type / union_type_all / can_use_structural_union /
+// union_type_impl / canonicalize_callable_union (head) / LuaType::from_vec / LuaUnionType::{from_vec, into_vec}.
 // Branch checkers that no law needs are `external_body` shims with NO postcondition about their verdict.
+// Files: template.rs (types, shims, checker), eqspec.rs (LuaType::eq), spec.rs (head_ok/head_err), laws.rs (laws a-d as lemmas),
+// union.rs + unionspec.rs (law e), subtype.rs, reftype.rs (law d), replay/ (plain-Rust driver that replays the findings on the real crate).
 #![feature(allocator_api)]
 use vstd::prelude::*;
 use std::alloc::Allocator;
@@ -85,6 +87,7 @@ impl GenericTpl {
     //@@ GenericTpl::get_constraint
 }
 impl LuaType {
+    //@@ LuaType::is_string
     //@@ LuaType::is_boolean
     //@@ LuaType::is_never
 }
@@ -205,12 +208,6 @@ pub fn vx_tpl_escape(typ: &LuaType) -> (r: Option<LuaType>)
 // branch checkers: verdict unconstrained; frame: the `db` reference and the two configuration fields are not written
 // (`db` is a shared reference; `detail`/`level` are never assigned outside TypeCheckContext::new — scanned)
 #[verifier::external_body]
-pub fn check_simple_type_compact(context: &mut TypeCheckContext, source: &LuaType, compact_type: &LuaType, check_guard: TypeCheckGuard) -> (r: TypeCheckResult)
-    ensures ctx_frame(old(context), final(context)) { unimplemented!() }
-#[verifier::external_body]
-pub fn check_ref_type_compact(context: &mut TypeCheckContext, source_id: &LuaTypeDeclId, compact_type: &LuaType, check_guard: TypeCheckGuard) -> (r: TypeCheckResult)
-    ensures ctx_frame(old(context), final(context)) { unimplemented!() }
-#[verifier::external_body]
 pub fn check_doc_func_type_compact(context: &mut TypeCheckContext, f: &LuaFunctionType, compact_type: &LuaType, check_guard: TypeCheckGuard) -> (r: TypeCheckResult)
     ensures ctx_frame(old(context), final(context)) { unimplemented!() }
 #[verifier::external_body]
@@ -241,6 +238,29 @@ pub fn check_call_type_compact(context: &mut TypeCheckContext, c: &LuaAliasCallT
 // ====================================================================================================================
 // 5. the checker (real text)
 // ====================================================================================================================
+// ---- what check_simple_type_compact calls ---------------------------------------------------------------------------------
+//@@ Emmyrc
+//@@ EmmyrcStrict
+pub uninterp spec fn sp_emmyrc(db: &DbIndex) -> Emmyrc;
+impl DbIndex {
+    #[verifier::external_body] pub fn get_emmyrc(&self) -> (r: &Emmyrc) ensures *r == sp_emmyrc(self) { unimplemented!() }
+}
+impl LuaTypeDeclId {
+    #[verifier::external_body] pub fn get_name(&self) -> (r: &str) { unimplemented!() }
+}
+/// derived PartialEq on a field-less enum: structural equality
+impl vstd::std_specs::cmp::PartialEqSpecImpl for TypeCheckCheckLevel {
+    open spec fn obeys_eq_spec() -> bool { true }
+    open spec fn eq_spec(&self, other: &TypeCheckCheckLevel) -> bool { *self == *other }
+}
+#[verifier::external_body]
+pub fn check_base_type_for_ref_compact(context: &mut TypeCheckContext, source: &LuaType, compact_type: &LuaType, check_guard: TypeCheckGuard) -> (r: TypeCheckResult)
+    ensures ctx_frame(old(context), final(context)) { unimplemented!() }
+#[verifier::external_body]
+pub fn check_variadic_type_compact(context: &mut TypeCheckContext, source_type: &VariadicType, compact_type: &LuaType, check_guard: TypeCheckGuard) -> (r: TypeCheckResult)
+    ensures ctx_frame(old(context), final(context)) { unimplemented!() }
+//@@ check_simple_type_compact
+
 //@@ is_like_any
 //@@ fast_eq_check
 //@@ check_general_type_compact
@@ -253,6 +273,8 @@ pub fn check_call_type_compact(context: &mut TypeCheckContext, c: &LuaAliasCallT
 //@@include c16_laws/union.rs
 
 //@@include c16_laws/subtype.rs
+
+//@@include c16_laws/reftype.rs
 
 } // verus!
 fn main() {}
